@@ -119,6 +119,26 @@ claim("C15",
   "allof_required_unapplied and allof_single_ref_drops_own were found; the accepted-set reading (C02 validity relation) of 'narrowest' is stated on kinds/payloads, not on JSON instances; description/default/example are order-dependent by design.",
   "Coq proof (case analysis over kinds + induction over nested lists / enum tables / member lists) + in-Coq differential correspondence + end-to-end oracle", "4/C15")
 
+claim("C03",
+  "Coq theorems on Endpoint.v, a model of the generated _get_kwargs: query/header/cookie placement (each argument appears under exactly its wire name, in its own location, with its encoded value), "
+  "*_nothing_else (no other key is sent), *_unset_absent (unset optional arguments are not sent), method_literal, content_type_matches, security_demands_auth, and path_slots: for ALL path templates and "
+  "parameter lists inside the guard (distinct names, plain python names, no python name equal to another parameter's wire name) the sequential str.replace placeholder rewrite of sort_parameters followed by "
+  "str.format fills every {wire name} slot with its own argument; refutation witness multi_body_same_type. The model is tied to the code by executing the GENERATED _get_kwargs in a fresh interpreter on an atlas "
+  "of operations (every parameter kind x location, out-of-order path parameters, path-item overrides, one name in several locations, reserved names, bodies, security) plus random operations and comparing "
+  "method/url/params/cookies/headers/json/data with Endpoint.get_kwargs evaluated by vm_compute; an oracle compares the request captured behind httpx.MockTransport (sync and asyncio variants, with the generated "
+  "client building its own httpx client incl. credential header) with an expectation computed from the document.",
+  "Trusted: Coq kernel+vm_compute; gen_kinds.py; abstraction harness/lib/epwork.py+absprop.py; client_runner.py; httpx request encoding is outside the model (the theorem stops at the kwargs dict; the captured request is compared by the "
+  "oracle only); multipart/octet-stream bodies are not modelled; str.format is modelled for plain {identifier} fields only.",
+  "Coq proof (list/map invariants; string-rewrite theorem) + in-Coq differential correspondence against executed generated code", "4/C03")
+claim("C04",
+  "Coq theorems on Endpoint.v's model of the generated _parse_response: documented_status_decoded (a documented status is decoded from the documented source json/text/bytes/none with the documented schema's decoder, "
+  "first declaration wins), no_schema_no_value, undocumented_status (None, or UnexpectedStatus when raise_on_unexpected_status), parsed_value_typed (the parsed value inhabits the annotated type; uses the C02/C11 codec theorems), "
+  "status_alias refutation. Tied to the code by executing the GENERATED _parse_response on canned httpx.Response objects (every documented status x valid / near-valid / non-JSON / text / bytes / empty bodies, undocumented "
+  "statuses, both flag settings) and comparing parsed value / None / UnexpectedStatus / other exception with Endpoint.parse evaluated by vm_compute; an oracle compares sync_detailed / asyncio_detailed results behind "
+  "httpx.MockTransport (status, headers, content verbatim; parsed per document; variants agree) with an expectation computed from the document.",
+  "Trusted: Coq kernel+vm_compute; abstraction epwork.py/absprop.py; client_runner.py; httpx's response.json()/text/content are oracles supplied per case; a File value is identified with its payload bytes.",
+  "Coq proof (induction over the response list) + in-Coq differential correspondence against executed generated code", "4/C04")
+
 def main():
     checks = []
     for pid in ALL:
